@@ -28,7 +28,7 @@ struct Ev {
   long a, b;
   unsigned long tid;
 };
-static const size_t EVCAP = 1 << 18;
+static const size_t EVCAP = 1 << 21;
 static Ev *g_ev = NULL;
 static std::atomic<size_t> g_nev{0};
 static std::atomic<uint64_t> g_plan_seed{1};
@@ -127,7 +127,7 @@ static long run_pool_lifecycle(uint64_t seed, int workers, int tasks, int protoc
   int done = 0;
   {
     char t[160];
-    snprintf(t, sizeof t, "lifecycle=%ld workers=%d tasks=%d protocol=%c seed=%llu", lifecycle_no, workers, tasks, "abcd"[protocol], (unsigned long long)seed);
+    snprintf(t, sizeof t, "lifecycle=%ld workers=%d tasks=%d protocol=%c seed=%llu", lifecycle_no, workers, tasks, "abcde"[protocol], (unsigned long long)seed);
     obs::crumb("C10", "pool", t);
     // the parent reads the current lifecycle from the output file if it has to kill a deadlocked process
     obs::line(std::string("L\t") + t);
@@ -179,6 +179,16 @@ static long run_pool_lifecycle(uint64_t seed, int workers, int tasks, int protoc
       }
       pool.wait_workers();
     accounted:;
+    } else if (protocol == 4) { // stop while tasks are pending; the running tasks hand over further tasks after the stop: the worker that
+                                // runs such a task looks at the queue again before it exits, so the late tasks must run exactly once too
+      int roots = (tasks + 1) / 2;
+      for (int i = 0; i < roots; i++) {
+        int child = i + roots;
+        if (child < tasks) pool.add_task([i, child, &body, pp]() { body(i); pp->add_task([child, &body]() { body(child); }); });
+        else pool.add_task([i, &body]() { body(i); });
+      }
+      pool.stop_all_workers();
+      pool.wait_workers();
     } else { // tasks trickle in while workers go back to sleep in between
       for (int i = 0; i < tasks; i++) {
         sleep_us((long)r.below(300));
@@ -196,12 +206,12 @@ static long run_pool_lifecycle(uint64_t seed, int workers, int tasks, int protoc
     int runs = ts[i].runs.load();
     if (runs != 1) {
       bad++;
-      obs::violation("C10", "pool", runs == 0 ? "task-lost" : "task-ran-twice", std::string("protocol_") + "abcd"[protocol],
+      obs::violation("C10", "pool", runs == 0 ? "task-lost" : "task-ran-twice", std::string("protocol_") + "abcde"[protocol],
                      "task " + std::to_string(i) + " ran " + std::to_string(runs) + " times; " + obs::c_detail);
     }
     if (ts[i].overlap.load()) {
       bad++;
-      obs::violation("C10", "pool", "self-concurrent", std::string("protocol_") + "abcd"[protocol], "task " + std::to_string(i) + " overlapped with itself; " + obs::c_detail);
+      obs::violation("C10", "pool", "self-concurrent", std::string("protocol_") + "abcde"[protocol], "task " + std::to_string(i) + " overlapped with itself; " + obs::c_detail);
     }
   }
   // ---- offline check of the hook event log
@@ -219,7 +229,7 @@ static long run_pool_lifecycle(uint64_t seed, int workers, int tasks, int protoc
   obs::count("eval.event_log_checks", 4);
   if (n < EVCAP && (enq != tasks || pop != tasks || beg != tasks || end != tasks || wexit != workers)) {
     bad++;
-    obs::violation("C10", "pool", "event-accounting", std::string("protocol_") + "abcd"[protocol],
+    obs::violation("C10", "pool", "event-accounting", std::string("protocol_") + "abcde"[protocol],
                    "enqueued=" + std::to_string(enq) + " popped=" + std::to_string(pop) + " begun=" + std::to_string(beg) + " ended=" + std::to_string(end) + " worker_exits=" + std::to_string(wexit) +
                        " expected tasks=" + std::to_string(tasks) + " workers=" + std::to_string(workers) + "; " + obs::c_detail);
   }
@@ -237,17 +247,17 @@ static int mode_pool(long lifecycles, uint64_t seed, int maxworkers, int maxtask
     int tasks = (int)r.below(maxtasks + 1);
     if (r.chance(15)) tasks = 0;
     if (r.chance(15)) workers = 1;
-    int protocol = (int)r.below(4);
+    int protocol = (int)r.below(5);
     uint64_t ls = mix(seed, (uint64_t)l);
     run_pool_lifecycle(ls, workers, tasks, protocol, l);
     obs::count("eval.lifecycle");
-    obs::count(std::string("cls.protocol_") + "abcd"[protocol]);
+    obs::count(std::string("cls.protocol_") + "abcde"[protocol]);
     if (tasks == 0) obs::count("cls.tasks_0");
     if (workers == 1) obs::count("cls.workers_1");
     if (tasks > workers) obs::count("cls.tasks_gt_workers");
     if (l < 3) {
       char t[160];
-      snprintf(t, sizeof t, "pool lifecycle: %d workers, %d tasks, protocol %c, delay<=%ldus, window interposer %s", workers, tasks, "abcd"[protocol], delay_us, g_window_on.load() ? "on" : "off");
+      snprintf(t, sizeof t, "pool lifecycle: %d workers, %d tasks, protocol %c, delay<=%ldus, window interposer %s", workers, tasks, "abcde"[protocol], delay_us, g_window_on.load() ? "on" : "off");
       obs::line(std::string("X\t") + t);
     }
   }
@@ -260,7 +270,7 @@ static int mode_pool(long lifecycles, uint64_t seed, int maxworkers, int maxtask
 }
 
 // ---------------------------------------------------------------------------------------------- block builds
-static int mode_blocks(const std::string &input, long schedules, uint64_t seed, long delay_us, long only_threads) {
+static int mode_blocks(const std::string &input, long schedules, uint64_t seed, long delay_us, long only_threads, const std::string &only_cuts) {
   using namespace libcsd_verif;
   std::vector<std::string> strs;
   {
@@ -281,6 +291,16 @@ static int mode_blocks(const std::string &input, long schedules, uint64_t seed, 
   for (auto &s : m.S) { textlen += s.size() + 1; minlen = std::min(minlen, s.size()); }
   Rng r(seed);
   std::vector<unsigned long> cuts = {1, minlen + 1, std::max<size_t>(1, textlen / 2), std::max<size_t>(1, textlen / 3), std::max<size_t>(1, textlen / 7), std::max<size_t>(1, textlen / 16), textlen + 10};
+  if (!only_cuts.empty()) {   // --cuts a,b,c: many-block builds (thousands of tiny blocks completing while the producer is still cutting)
+    cuts.clear();
+    size_t p = 0;
+    while (p < only_cuts.size()) {
+      size_t q = only_cuts.find(',', p);
+      if (q == std::string::npos) q = only_cuts.size();
+      cuts.push_back(strtoul(only_cuts.substr(p, q - p).c_str(), NULL, 10));
+      p = q + 1;
+    }
+  }
   std::set<uint64_t> orders, assignments;
   long maxconc_seen = 0;
   for (long s = 0; s < schedules; s++) {
@@ -327,6 +347,7 @@ static int mode_blocks(const std::string &input, long schedules, uint64_t seed, 
     if (nblocks >= 2) obs::count("cls.blocks_ge2");
     if (nblocks == 1) obs::count("cls.blocks_1");
     if ((size_t)nblocks == m.n) obs::count("cls.blocks_eq_n");
+    if (nblocks >= 1000) obs::count("cls.blocks_ge1000");
     // ---- event log: exactly one queued -> begin -> built -> stored chain per block, everything stored before return
     std::vector<int> q(nblocks + 1, 0), b(nblocks + 1, 0), bu(nblocks + 1, 0), st(nblocks + 1, 0);
     long ret_at = -1, wait_at = -1, parts_done = -1, parts_size = -1;
@@ -392,6 +413,7 @@ static int mode_blocks(const std::string &input, long schedules, uint64_t seed, 
 int main(int argc, char **argv) {
   std::string mode = "pool", out, input;
   long lifecycles = 100, schedules = 10, delay_us = 0, only_threads = 0;
+  std::string only_cuts;
   int maxworkers = 8, maxtasks = 64, window = 1;
   uint64_t seed = 1;
   for (int i = 1; i < argc; i++) {
@@ -407,13 +429,14 @@ int main(int argc, char **argv) {
     else if (a == "--maxtasks") maxtasks = atoi(val().c_str());
     else if (a == "--window") window = atoi(val().c_str());
     else if (a == "--threads") only_threads = atol(val().c_str());
+    else if (a == "--cuts") only_cuts = val();
     else if (a == "--seed") seed = strtoull(val().c_str(), NULL, 10);
     else { fprintf(stderr, "unknown arg %s\n", a.c_str()); return 2; }
   }
   obs::install(out.empty() ? NULL : out.c_str(), !(UNDER_ASAN || UNDER_TSAN));
   g_ev = new Ev[EVCAP];
   libcsd_verif::point_ref().store(on_point, std::memory_order_release);
-  int rc = mode == "pool" ? mode_pool(lifecycles, seed, maxworkers, maxtasks, delay_us, window) : mode_blocks(input, schedules, seed, delay_us, only_threads);
+  int rc = mode == "pool" ? mode_pool(lifecycles, seed, maxworkers, maxtasks, delay_us, window) : mode_blocks(input, schedules, seed, delay_us, only_threads, only_cuts);
   obs::count("violations", obs::n_viol);
   obs::dump_counters();
   obs::line("D\tok");
